@@ -656,12 +656,29 @@ func (graph *Graph) becameNecessaryRecursive(node INode) (err error) {
 		}
 	}
 	for _, sentinels := range node.Node().nodeSentinels() {
+		// the watch edge left with the node when it was last removed from the graph (zeroNode);
+		// without it the sentinel is not among the watched node's inputs, and the node is taken
+		// for a single-input node that may be recomputed directly, ahead of its real input
+		if !watchEdgePresent(node, sentinels) {
+			graph.link(node, sentinels)
+		}
 		graph.recomputeHeap.addIfNotPresent(sentinels)
 	}
 	if node.Node().isStale() {
 		graph.recomputeHeap.addIfNotPresent(node)
 	}
 	return
+}
+
+// watchEdgePresent reports if the sentinel is recorded among the watched node's inputs.
+func watchEdgePresent(watched INode, sn ISentinel) bool {
+	id := sn.Node().id
+	for _, p := range watched.Node().parents {
+		if p.Node().id == id {
+			return true
+		}
+	}
+	return false
 }
 
 func (graph *Graph) becameNecessary(node INode) error {
@@ -785,6 +802,13 @@ func (graph *Graph) zeroNode(n INode) {
 	nn.setAt = 0
 	nn.changedAt = 0
 	nn.recomputedAt = 0
+
+	// a sentinel keeps watching a node that is out of the graph, but the edge goes with the
+	// node: its own side is cleared below, and the other side left behind would have the
+	// sentinel queue a node that is not in the graph.
+	for _, sn := range nn.nodeSentinels() {
+		sn.Node().removeChild(nn.id)
+	}
 
 	nn.parents = nil
 	nn.children = nil
